@@ -245,7 +245,19 @@ func (ev *tplEval) evalIdent(fc *fctx, id *ast.Ident) Sketch {
 		case *ast.Field:
 			for _, nm := range n.Names {
 				if info.Defs[nm] == obj {
-					isParam = true
+					// a named result starts as the empty string and is built by the body; only true parameters
+					// take their content from the call sites
+					isResult := false
+					if fc.fn.Type.Results != nil {
+						for _, rf := range fc.fn.Type.Results.List {
+							if rf == n {
+								isResult = true
+							}
+						}
+					}
+					if !isResult {
+						isParam = true
+					}
 				}
 			}
 		case *ast.AssignStmt:
